@@ -95,6 +95,7 @@ OPS = st.one_of(
     st.tuples(st.just("drop"), st.sampled_from(["fin", "reset"])).map(list),
     st.tuples(st.just("dropold"), st.sampled_from(["fin", "reset"])).map(list),
     st.just(["close"]), st.just(["shutdown"]), st.just(["stall"]),
+    st.tuples(st.just("garble"), st.sampled_from(["text", "bytes"])).map(list),
 )
 
 
@@ -107,6 +108,18 @@ def histories(draw):
     script = draw(st.lists(st.sampled_from(ALL_OUTCOMES + ["ok", "ok"]), min_size=0, max_size=8))
     ops = [["open"]] + draw(st.lists(OPS, min_size=2, max_size=14))
     return {"hosts": roles, "script": script, "ops": ops, "k": draw(st.integers(0, 20))}
+
+
+def run_two_pairings(case, R):
+    """What happens to one pairing's connections (loss, abandonment, close, timeout) must not disturb the connection another pairing of the same
+    process is using (harness and clauses of C08's two-pairings layer)."""
+    from props.c08 import run_two
+    run_two(case, R)
+
+
+def enum_two_pairings(tier):
+    from props.c08 import enum_two
+    return enum_two(tier)
 
 
 @st.composite
@@ -137,6 +150,8 @@ SPEC = Property(
         Layer("outcome-pairs", run_case, enumerate=enum_outcome_pairs, exhaustive=True,
               space="every outcome x 3 frames, every ordered pair of outcomes x 1 frame, every outcome x 2 two-host frames", min_nontrivial=150),
         Layer("generated", run_case, strategy=histories, n={"quick": 12000, "thorough": 150000}, min_nontrivial=500),
+        Layer("two-pairings", run_two_pairings, enumerate=enum_two_pairings, exhaustive=True,
+              space="two pairings in one process: 9 disturbances of A's connection while B has a request outstanding; both creation orders", min_nontrivial=10),
         Layer("reuse-after-close", run_case, strategy=reuse_histories, n={"quick": 4000, "thorough": 60000}, min_nontrivial=200),
     ],
     assumptions=["'holds a connection' = the controller has not called close()/abort() on the transport and has not been told it is lost",
